@@ -33,8 +33,14 @@ Present(c) == {n \in Names : c.sigs[n].shape # "absent"}
 ArgFamilies == {"TypeError", "ValueError"}
 ThrKindsAll == {"int", "plus_half", "minus_half", "zero", "neg", "str", "null", "list"}
 ThrKinds == {"int"}          \* overridden (ThrKinds <- ThrKindsAll) by the configuration that enumerates threshold kinds
+(* out: the state of the stream the "Ignoring ..." notices go to - working, or dead (every write fails: the reader of the pipe is     *)
+(* gone, the disk behind a redirection is full).  A dead stream may make the call FAIL (an I/O error surfaces) but never makes      *)
+(* anything count that would not have counted: the requirement is unchanged except that "OSError" joins every allowed set.           *)
+OutKindsAll == {"ok", "dead"}
+OutKindsDead == {"dead"}
+OutKinds == {"ok"}           \* overridden (OutKinds <- OutKindsAll) by the configuration that enumerates stream states
 BadArgs(c) == c.authalt \/ c.tk # "int"
-Allowed(c) == IF BadArgs(c) THEN ArgFamilies
+Allowed(c) == (IF c.out = "dead" THEN {"OSError"} ELSE {}) \cup IF BadArgs(c) THEN ArgFamilies
               ELSE IF Meets(c.sigs, c.auth, c.thr, c.gpg) THEN {"accept"} ELSE {"SignatureError"}
 
 (* implementation layer: the filters of the loop body, in the code's order *)
@@ -56,17 +62,17 @@ CaseJson(c) ==
   [ e    |-> [k \in Key |-> LET v == c.sigs[CanonName(k)] IN <<v.shape, v.by, v.over, v.fr, v.ok>>],
     alt  |-> LET v == c.sigs[AltName] IN <<v.shape, v.by, v.over, v.fr, v.ok>>,
     junk |-> LET v == c.sigs[JunkName] IN <<v.shape, v.by, v.over, v.fr, v.ok>>,
-    auth |-> c.auth, thr |-> c.thr, tk |-> c.tk, gpg |-> c.gpg, authalt |-> c.authalt,
+    auth |-> c.auth, thr |-> c.thr, tk |-> c.tk, out |-> c.out, gpg |-> c.gpg, authalt |-> c.authalt,
     signers |-> Signers(c.sigs, c.auth, c.gpg),
     strip_ok |-> Meets(Strip(c.sigs, c.auth, c.gpg), c.auth, c.thr, c.gpg),
     allowed |-> Allowed(c) ]
 
 (* one initial state per abstract call (written with \E so that TLC enumerates directly) *)
 Init == /\ \E cs \in [Key -> CanonStates], a \in [AltNames -> AltStates], j \in [JunkNames -> JunkStates],
-              au \in SUBSET Key, t \in 1..MaxThr, g \in BOOLEAN, aa \in BOOLEAN, k \in ThrKinds :
+              au \in SUBSET Key, t \in 1..MaxThr, g \in BOOLEAN, aa \in BOOLEAN, k \in ThrKinds, o \in OutKinds :
               /\ (aa => a[AltName] # Absent)
               /\ case = [sigs |-> [n \in Names |-> IF IsCanonName(n) THEN cs[KeyOf(n)] ELSE IF n \in AltNames THEN a[n] ELSE j[n]],
-                         auth |-> au, thr |-> t, tk |-> k, gpg |-> g, authalt |-> aa]
+                         auth |-> au, thr |-> t, tk |-> k, out |-> o, gpg |-> g, authalt |-> aa]
         /\ pc = "start" /\ todo = {} /\ good = {} /\ outcome = "none"
 
 Start == /\ pc = "start"
@@ -76,14 +82,19 @@ Start == /\ pc = "start"
               ELSE pc' = "loop" /\ todo' = Present(case) /\ UNCHANGED <<case, good, outcome>>
 
 
+(* an entry that is filtered out is reported on the output stream before the loop goes on *)
+Noticed(c, n) == Classify(c, n) \in {"badname", "badshape", "unauthorized"}
 Examine(n) ==
   /\ pc = "loop" /\ n \in todo
   /\ (AllOrders \/ n = CHOOSE m \in todo : TRUE)
-  /\ todo' = IF MUTANT = "breakonbad" /\ Classify(case, n) # "counts" THEN {} ELSE todo \ {n}
-  /\ good' = IF Classify(case, n) = "counts"
-               THEN good \cup {n}      \* the code's accumulator is a dict keyed by the entry *name*
-               ELSE good
-  /\ UNCHANGED <<case, pc, outcome>>
+  /\ IF case.out = "dead" /\ Noticed(case, n) /\ MUTANT # "dead_stream_falls_through"
+       THEN pc' = "done" /\ outcome' = "OSError" /\ UNCHANGED <<case, todo, good>>          \* the write fails and the error surfaces
+       ELSE /\ todo' = IF MUTANT = "breakonbad" /\ Classify(case, n) # "counts" THEN {} ELSE todo \ {n}
+            /\ good' = IF Classify(case, n) = "counts"
+                           \/ (MUTANT = "dead_stream_falls_through" /\ case.out = "dead" /\ Noticed(case, n) /\ SigValid(case.sigs[n], case.gpg))
+                         THEN good \cup {n}      \* the code's accumulator is a dict keyed by the entry *name*
+                         ELSE good
+            /\ UNCHANGED <<case, pc, outcome>>
 
 Decide ==
   /\ pc = "loop" /\ todo = {}
@@ -99,14 +110,14 @@ Spec == Init /\ [][Next]_vars /\ WF_vars(Next)
 
 (* ---------------------------------------------------------------------- *)
 TypeOK == /\ pc \in {"start", "loop", "done"} /\ todo \subseteq Names
-          /\ outcome \in {"none", "accept", "SignatureError", "TypeError"}
+          /\ outcome \in {"none", "accept", "SignatureError", "TypeError", "OSError"}
 
 Sound    == (pc = "done" /\ outcome = "accept") => Cardinality(Signers(case.sigs, case.auth, case.gpg)) >= case.thr
-Complete == (pc = "done" /\ ~BadArgs(case) /\ Cardinality(Signers(case.sigs, case.auth, case.gpg)) >= case.thr) => outcome = "accept"
+Complete == (pc = "done" /\ case.out = "ok" /\ ~BadArgs(case) /\ Cardinality(Signers(case.sigs, case.auth, case.gpg)) >= case.thr) => outcome = "accept"
 MalformedNeverAccepted == (pc = "done" /\ BadArgs(case)) => outcome # "accept"
 Refines  == pc = "done" => outcome \in Allowed(case)
 (* loop invariant: the accumulator never holds anything but genuine signers, and holds all examined ones *)
-GoodExact == (pc \in {"loop", "done"} /\ ~BadArgs(case)) =>
+GoodExact == (pc \in {"loop", "done"} /\ ~BadArgs(case) /\ outcome # "OSError") =>
                good = {CanonName(k) : k \in {s \in Signers(case.sigs, case.auth, case.gpg) : CanonName(s) \notin todo}}
 (* C06, stripping monotonicity at the design level *)
 StripMonotone == Meets(case.sigs, case.auth, case.thr, case.gpg)
